@@ -28,7 +28,7 @@ ASSUMPTIONS = [
     "Random / PowerOfTwo draws are not modelled: the model returns the set the draw is taken from; the implementation's picks (16 resp. 64 draws) must lie in it (Random) / be exactly it (PowerOfTwo's two candidates)",
     "time: one model second = 100000 real seconds; fail()/succeed()/can_try()/is_down() are the real ones; the random window length fail() draws is checked against its range and replaced (hook) by the case's; a clock advance ages every policy's last_try (hook); Instant::now() jitter (<< 1 model second per case) cannot change an outcome",
     "connect outcomes are environment data: a non-blocking tcp connect to a loopback address answers Ok (EINPROGRESS), to 255.255.255.255 fails synchronously (ENETUNREACH in tcp_v4_connect); the driver re-checks this on every connect",
-    "LoadMetric::ConnectionTime (PeakEWMA, wall-clock data) is not modelled: with that metric the pick of LeastLoaded / PowerOfTwo is checked for membership in the candidate list only; the contents of the 65537-slot production Maglev table are not modelled (the same rebuild code is compared slot by slot at table sizes 2..31)",
+    "LoadMetric::ConnectionTime (PeakEWMA, wall-clock data) is not modelled: with that metric the pick of LeastLoaded / PowerOfTwo is checked for membership in the candidate list only; the 65537-slot production Maglev table is modelled over a binary trie proved equal slot for slot to the list-based rebuild, and compared slot by slot with the real table in dedicated cases (the same rebuild code is compared slot by slot at table sizes 2..31)",
 ]
 TRUSTED = ["translator props/c12.py:translate compares DEFAULT_TABLE_SIZE, DEFAULT_WEIGHT, the max_tries of Backend::new, the bodies of can_open / is_available / the fail-open filter and the statements of ExponentialBackoffPolicy::{fail,can_try} with lib/src/{backends,load_balancing,retry}.rs"]
 
@@ -395,8 +395,8 @@ LEVEL_TEXT = ("Machine-checked proof (Coq 8.16) over an executable model of Back
               "differential correspondence run of the real BackendMap against the extracted model, with the property's "
               "own oracle evaluated on the implementation.")
 LEVEL_NOTE = ("Trusted: Coq kernel; extraction + ocaml/driver.ml for the correspondence only; hash values and HRW "
-              "scores are data read from the real code; Random/PowerOfTwo draws compared by membership; the production "
-              "65537-slot table is not compared slot by slot; PeakEWMA metric not modelled; what the session code does to the "
+              "scores are data read from the real code; Random/PowerOfTwo draws compared by membership; PeakEWMA metric not "
+              "modelled (membership only); what the session code does to the "
               "backend it was given (inc/dec/fail/succeed call sites) is checked black-box through a real worker and "
               "the backend snapshot hook, not proved.")
 TECHNIQUE = "Rocq/Coq proof over an executable Gallina model + differential correspondence (extracted OCaml vs real crate)"
